@@ -46,6 +46,8 @@ func runC02(c *Ctx) {
 	c.Rule("R02c", "from/to symmetry: in functions with two parameters of the same schema type, a direct comparison whose operands are selector paths rooted at the two parameters uses the same path on both sides", 15)
 	c.Rule("R02h", "no unconditional change: in every comparison function of the differ files (two parameters of the same schema type) each change literal can be avoided within its loop iteration / function (it is control-dependent on a comparison): a schema compared with itself cannot produce it unless a comparison says so", 25)
 	c.Rule("R02d", "skip filter on every path (E-flow; same analysis as C19/R19a): no skippable kind reaches a differ result or a nested Changes field unfiltered", 4)
+	c.Rule("R02i", "identity by name first: in sqlx.ChecksDiff the matcher falls back to the expression comparison only on paths where at least one of the two constraint names is empty (two named constraints are the same constraint iff their names are equal)", 1)
+	c.Rule("R02j", "side purity: in the differ files, when two variables of the same type are compared attribute by attribute (A.p == B.p), no assignment makes an attribute of one a function of the other", 20)
 	c.Rule("R02g", "sqlite: a generated numeric foreign-key symbol is never an identity: every equality test between two ForeignKey.Symbol values in the SQLite differ is conjoined with !IsUint(symbol)", 1)
 
 	// ---- R02a
@@ -101,6 +103,10 @@ func runC02(c *Ctx) {
 
 	// ---- R02c
 	symmetryLint(c)
+
+	// ---- R02i / R02j
+	checkNameIdentity(c)
+	sidePurityLint(c)
 
 	// ---- R02h
 	checkConditionalChanges(c)
@@ -625,6 +631,220 @@ func checkConditionalChanges(c *Ctx) {
 				c.Check("R02h", key, un.Pos(), cond, "%s constructs a %s on every path (of its loop iteration): comparing a schema with itself would report it", fi.Name, kind)
 				return true
 			})
+		})
+	}
+}
+
+// checkNameIdentity is R02i.
+func checkNameIdentity(c *Ctx) {
+	fi := c.Func("R02i", pSqlx, "", "ChecksDiff")
+	if fi == nil {
+		return
+	}
+	info := fi.Info()
+	// the comparison parameter
+	var cmp types.Object
+	for _, fld := range fi.Decl.Type.Params.List {
+		if _, ok := info.TypeOf(fld.Type).Underlying().(*types.Signature); ok && len(fld.Names) == 1 {
+			cmp = info.ObjectOf(fld.Names[0])
+		}
+	}
+	if cmp == nil {
+		c.Unresolved("R02i", "the comparison parameter of sqlx.ChecksDiff")
+		return
+	}
+	isNameNonEmpty := func(e ast.Expr, op token.Token) bool {
+		be, ok := ast.Unparen(e).(*ast.BinaryExpr)
+		if !ok || be.Op != op {
+			return false
+		}
+		x, y := be.X, be.Y
+		if s, ok := stringConst(info, x); ok && s == "" {
+			x, y = y, x
+		}
+		s, ok := stringConst(info, y)
+		return ok && s == "" && isField(info, x, pSchema, "Check", "Name")
+	}
+	var flat func(e ast.Expr, op token.Token) []ast.Expr
+	flat = func(e ast.Expr, op token.Token) []ast.Expr {
+		e = ast.Unparen(e)
+		if be, ok := e.(*ast.BinaryExpr); ok && be.Op == op {
+			return append(flat(be.X, op), flat(be.Y, op)...)
+		}
+		return []ast.Expr{e}
+	}
+	n := 0
+	ast.Inspect(fi.Decl.Body, func(m ast.Node) bool {
+		fl, ok := m.(*ast.FuncLit)
+		if !ok {
+			return true
+		}
+		// innermost literals that call the comparison parameter and test a name
+		callsCmp, nested := false, false
+		ast.Inspect(fl.Body, func(k ast.Node) bool {
+			if _, ok := k.(*ast.FuncLit); ok {
+				nested = true
+			}
+			if call, ok := k.(*ast.CallExpr); ok {
+				if id, ok := call.Fun.(*ast.Ident); ok && info.ObjectOf(id) == cmp {
+					callsCmp = true
+				}
+			}
+			return true
+		})
+		if !callsCmp || nested {
+			return true
+		}
+		n++
+		f := newFlow(info, fl.Body)
+		target := func(k ast.Node) bool {
+			found := false
+			walkShallow(k, func(x ast.Node) bool {
+				if call, ok := x.(*ast.CallExpr); ok {
+					if id, ok := call.Fun.(*ast.Ident); ok && info.ObjectOf(id) == cmp {
+						found = true
+					}
+				}
+				return true
+			})
+			return found
+		}
+		// an edge is closed when taking it proves that one of the names is empty
+		edgeStop := func(b *cfg.Block, si int) bool {
+			cond, _, _ := condOf(b)
+			if cond == nil || len(b.Succs) != 2 {
+				return false
+			}
+			if si == 1 { // false edge of a conjunction of `name != ""`
+				for _, cj := range flat(cond, token.LAND) {
+					if !isNameNonEmpty(cj, token.NEQ) {
+						return false
+					}
+				}
+				return true
+			}
+			// true edge of a disjunction of `name == ""`
+			for _, dj := range flat(cond, token.LOR) {
+				if !isNameNonEmpty(dj, token.EQL) {
+					return false
+				}
+			}
+			return true
+		}
+		// reachability with those edges opened only: the call must NOT be reachable when they are removed
+		at, reached := f.reachEx([]point{f.entry()}, nil, target, edgeStop)
+		pos := fl.Pos()
+		if at != nil {
+			pos = at.Pos()
+		}
+		c.Check("R02i", "sqlx.ChecksDiff$matcher"+itoa(n)+"|expression fallback only when a name is empty", pos, !reached, "the matcher in ChecksDiff reaches the expression comparison on a path where both constraint names may be non-empty: two differently named constraints with the same expression are treated as one (a rename, or a second constraint with an equal expression, produces no change)")
+		return true
+	})
+	if n == 0 {
+		c.Unresolved("R02i", "the matcher closure of sqlx.ChecksDiff (a func literal calling the comparison parameter)")
+	}
+}
+
+// sidePurityLint is R02j.
+func sidePurityLint(c *Ctx) {
+	for _, pp := range []string{pSqlx, pSqlite, pMysql, pPostgres} {
+		c.AllFuncs(false, func(fi *FuncInfo) {
+			if fi.Pkg.PkgPath != pp {
+				return
+			}
+			base := c.Fset.Position(fi.Decl.Pos()).Filename
+			base = base[strings.LastIndex(base, "/")+1:]
+			if !strings.HasPrefix(base, "diff") {
+				return
+			}
+			info := fi.Info()
+			type pr struct{ a, b types.Object }
+			pairs := map[pr]ast.Expr{}
+			split := func(e ast.Expr) (types.Object, string) {
+				e = ast.Unparen(e)
+				r := rootIdent(e)
+				if r == nil {
+					return nil, ""
+				}
+				o := info.ObjectOf(r)
+				if _, ok := o.(*types.Var); !ok {
+					return nil, ""
+				}
+				sp := selPath(e)
+				if i := strings.Index(sp, "."); i >= 0 {
+					return o, sp[i:]
+				}
+				return nil, ""
+			}
+			ast.Inspect(fi.Decl.Body, func(m ast.Node) bool {
+				be, ok := m.(*ast.BinaryExpr)
+				if !ok || (be.Op != token.EQL && be.Op != token.NEQ) {
+					return true
+				}
+				a, pa := split(be.X)
+				b, pb := split(be.Y)
+				if a == nil || b == nil || a == b || pa != pb || !types.Identical(a.Type(), b.Type()) {
+					return true
+				}
+				pairs[pr{a, b}] = be
+				pairs[pr{b, a}] = be
+				return true
+			})
+			if len(pairs) == 0 {
+				return
+			}
+			c.funcs[fi.Name] = true
+			done := map[ast.Expr]bool{}
+			pm := parentMap(fi.Decl.Body)
+			// "match, then adopt": an assignment inside the if whose condition holds the
+			// comparison is the result of the comparison, not an input of it.
+			guardedBy := func(as ast.Node, cmpE ast.Expr) bool {
+				for p := pm[as]; p != nil; p = pm[p] {
+					if is, ok := p.(*ast.IfStmt); ok && is.Cond.Pos() <= cmpE.Pos() && cmpE.End() <= is.Cond.End() {
+						return true
+					}
+				}
+				return false
+			}
+			ast.Inspect(fi.Decl.Body, func(m ast.Node) bool {
+				as, ok := m.(*ast.AssignStmt)
+				if !ok {
+					return true
+				}
+				for i, l := range as.Lhs {
+					if _, isSel := ast.Unparen(l).(*ast.SelectorExpr); !isSel {
+						continue
+					}
+					r := rootIdent(l)
+					if r == nil {
+						continue
+					}
+					lo := info.ObjectOf(r)
+					rhs := as.Rhs[0]
+					if len(as.Rhs) == len(as.Lhs) {
+						rhs = as.Rhs[i]
+					}
+					ast.Inspect(rhs, func(k ast.Node) bool {
+						id, ok := k.(*ast.Ident)
+						if !ok {
+							return true
+						}
+						if cmpE, ok := pairs[pr{lo, info.ObjectOf(id)}]; ok && !guardedBy(as, cmpE) {
+							done[cmpE] = true
+							c.Check("R02j", fi.Name+"|"+types.ExprString(cmpE)+"|"+types.ExprString(l)+" assigned from "+id.Name, as.Pos(), false, "%s: %s is computed from %s, and the two are then compared (%s): the comparison no longer sees the second object's own value", fi.Name, types.ExprString(l), id.Name, types.ExprString(cmpE))
+						}
+						return true
+					})
+				}
+				return true
+			})
+			seen := map[ast.Expr]bool{}
+			for _, e := range pairs {
+				if !seen[e] && !done[e] {
+					seen[e] = true
+					c.Check("R02j", fi.Name+"|"+types.ExprString(e)+"|sides independent", e.Pos(), true, "")
+				}
+			}
 		})
 	}
 }
